@@ -7,18 +7,16 @@ From Coq Require Import NArith ZArith List.
 From Carquet Require Import Base.Res Gen.Enums_gen Enc.DeltaBits Enc.RleSpec Comp.CompBase File.SpecPage File.ForeignModel File.ForeignProofs.
 Local Open Scope N_scope.
 
-(** FULL STATEMENT (first sentence of the property): for every column chunk [pages] that denotes (reps, defs, vals)
-    per the format - data pages v1, PLAIN or dictionary values, levels and indices in any mix of run kinds, any page
-    split, a dictionary page announced by dictionary_page_offset or not, all eight physical types, the five codecs -
-        decode_chunk col has_off (length defs) pages = Ok (reps, defs, vals).
-    [chunk_decode_accepts_partial] below is that statement with two kinds of premises left explicit:
-      (1) zlib / libzstd are external code: their completeness is assumed (gz_d_complete, zs_d_complete);
-      (2) carquet_decode_plain returning the PLAIN values of the column's type is proved here for INT32, INT64, FLOAT,
-          DOUBLE and BYTE_ARRAY ([plain_accepts]); for BOOLEAN, INT96 and FIXED_LEN_BYTE_ARRAY it is a premise
-          (those three decoders are covered by ENC2's round-trip theorems and by the differential run, the
-          "accepts every stream the specification reads" form is not proved for them yet).
-    File-level plumbing (offsets, Thrift page headers, fseek/fread/mmap, nested-schema level computation - C17)
-    is outside the model: the differential run of checks/C06.py covers it. *)
+(** First sentence of the property, as far as the page decode path goes: for every column chunk [pages] that denotes
+    (reps, defs, vals) per the format - data pages v1, PLAIN or dictionary values, levels and indices in any mix of run
+    kinds, any page split, a dictionary page announced by dictionary_page_offset or not, all eight physical types, the
+    five codecs - the reader returns exactly (reps, defs, vals).  zlib / libzstd are external code: their completeness
+    is a premise of [chunk_decode_accepts] (named in the trusted base); [chunk_decode_accepts_builtin_codecs] has no
+    premise of that kind (UNCOMPRESSED, SNAPPY, LZ4_RAW).  The one restriction carquet has inside the claimed features:
+    dictionary pages are implemented for every type but BOOLEAN ([dictionary_capable]; no known writer
+    dictionary-encodes BOOLEAN; such pages are refused with NOT_IMPLEMENTED).
+    File-level plumbing (offsets, Thrift page headers, fseek/fread/mmap, the level computation for nested schemas - C17,
+    the column-reader cursor - C02) is outside this model: the differential run of checks/C06.py covers it. *)
 
 (** carquet_rle_decode_levels (the level decoder of the page reader) returns the levels of every well-formed hybrid
     stream: RLE runs of any length, bit-packed runs of any number of groups, zero-length runs, in any mix. *)
@@ -33,46 +31,49 @@ Theorem level_bit_width : forall m, m < 2 ^ 32 -> bit_width_for_max m = bit_widt
 Proof. exact bit_width_for_max_spec. Qed.
 Print Assumptions level_bit_width.
 
-(** PLAIN values: the decoder dispatch returns what the PLAIN specification reads (five of the eight types). *)
-Theorem plain_accepts : forall t tlen, plain_proved t -> forall n bs vals,
+(** PLAIN values: carquet_decode_plain returns what the PLAIN specification reads, for all eight physical types. *)
+Theorem plain_accepts : forall t tlen n bs vals,
   DeltaBits.bytes bs -> DeltaBits.len bs < 2 ^ 60 -> plain_values t tlen n bs = Some vals ->
   decode_plain t (N.of_nat tlen) bs (N.of_nat n) = Ok vals.
-Proof. exact plain_accepts_thm. Qed.
+Proof. exact plain_accepts_all_thm. Qed.
 Print Assumptions plain_accepts.
 
-(** One data page v1: what the page denotes is what carquet_read_data_page_v1 returns (levels of both kinds, the
-    non-null count, PLAIN or dictionary-index values). *)
-Theorem page_decode_accepts : forall col,
-  (forall n bs vals, DeltaBits.bytes bs -> DeltaBits.len bs < 2 ^ 60 ->
-     plain_values (c_type col) (c_tlen col) n bs = Some vals ->
-     decode_plain (c_type col) (N.of_nat (c_tlen col)) bs (N.of_nat n) = Ok vals) ->
-  forall dict hdr body reps defs vals,
+(** One data page v1: what the page denotes is what the page decoder returns (levels of both kinds, the non-null
+    count, PLAIN or dictionary-index values). *)
+Theorem page_decode_accepts : forall col dict hdr body reps defs vals,
   c_maxrep col < 2 ^ 32 -> c_maxdef col < 2 ^ 32 -> DeltaBits.bytes body -> DeltaBits.len body < 2 ^ 60 ->
   (is_dict_encoding (h_encoding hdr) = true -> dictionary_capable (c_type col)) ->
   PageDenotes col dict hdr body (reps, defs, vals) ->
   decode_page col (option_map model_dict dict) hdr body = Ok (reps, defs, vals).
-Proof. exact page_decode_accepts_thm. Qed.
+Proof. exact page_decode_accepts_full_thm. Qed.
 Print Assumptions page_decode_accepts.
 
 (** A whole column chunk: any number of pages, dictionary page first with or without dictionary_page_offset, the
     five codecs (Snappy and LZ4 through carquet's own decompressors, proved complete in C10). *)
-Theorem chunk_decode_accepts_partial :
+Theorem chunk_decode_accepts :
   forall (gz_d zs_d : list N -> N -> res (list N)) (GzipDenotes ZstdDenotes : list N -> list N -> Prop),
   (forall stored body cap, GzipDenotes stored body -> nlen body <= cap -> gz_d stored cap = Ok body) ->
   (forall stored body cap, ZstdDenotes stored body -> nlen body <= cap -> zs_d stored cap = Ok body) ->
-  forall col,
-  (forall n bs vals, DeltaBits.bytes bs -> DeltaBits.len bs < 2 ^ 60 ->
-     plain_values (c_type col) (c_tlen col) n bs = Some vals ->
-     decode_plain (c_type col) (N.of_nat (c_tlen col)) bs (N.of_nat n) = Ok vals) ->
-  c_maxrep col < 2 ^ 32 -> c_maxdef col < 2 ^ 32 ->
+  forall col, c_maxrep col < 2 ^ 32 -> c_maxdef col < 2 ^ 32 ->
   forall has_off pages reps defs vals,
   ChunkDenotes GzipDenotes ZstdDenotes col pages (reps, defs, vals) ->
   dict_pages_ok col pages ->
   (has_off = true -> exists dp rest, pages = dp :: rest /\ h_type (fst dp) = E_CARQUET_PAGE_DICTIONARY) ->
   (forall dp rest, pages = dp :: rest -> h_type (fst dp) = E_CARQUET_PAGE_DICTIONARY -> dictionary_capable (c_type col)) ->
   decode_chunk gz_d zs_d col has_off (Z.of_nat (length defs)) pages = Ok (reps, defs, vals).
-Proof. exact chunk_decode_accepts_thm. Qed.
-Print Assumptions chunk_decode_accepts_partial.
+Proof. exact chunk_decode_accepts_full_thm. Qed.
+Print Assumptions chunk_decode_accepts.
+
+(** ... and with no assumption about external code: chunks stored UNCOMPRESSED, SNAPPY or LZ4_RAW. *)
+Theorem chunk_decode_accepts_builtin_codecs : forall col, c_maxrep col < 2 ^ 32 -> c_maxdef col < 2 ^ 32 ->
+  forall has_off pages reps defs vals,
+  ChunkDenotes NoExternal NoExternal col pages (reps, defs, vals) ->
+  dict_pages_ok col pages ->
+  (has_off = true -> exists dp rest, pages = dp :: rest /\ h_type (fst dp) = E_CARQUET_PAGE_DICTIONARY) ->
+  (forall dp rest, pages = dp :: rest -> h_type (fst dp) = E_CARQUET_PAGE_DICTIONARY -> dictionary_capable (c_type col)) ->
+  decode_chunk no_external_d no_external_d col has_off (Z.of_nat (length defs)) pages = Ok (reps, defs, vals).
+Proof. exact chunk_decode_accepts_builtin_thm. Qed.
+Print Assumptions chunk_decode_accepts_builtin_codecs.
 
 (** Second sentence of the property, page level.  Every page carquet does not claim - DATA_PAGE_V2, INDEX_PAGE and
     every other integer in the type field; every integer in the encoding field other than PLAIN / PLAIN_DICTIONARY /
